@@ -8,6 +8,7 @@ from jaqalpaq.core.algorithm.visitor import Visitor
 from jaqalpaq.core import circuitbuilder
 from jaqalpaq.core.register import Register, NamedQubit
 from jaqalpaq.core.constant import Constant
+from jaqalpaq.core.parameter import make_item_name
 
 
 def fill_in_let(circuit, override_dict=None):
@@ -101,6 +102,9 @@ class LetFiller(Visitor):
         new_from = self.visit(qubit.alias_from)
         if isinstance(qubit.alias_index, Constant):
             new_index = self.resolve_constant(qubit.alias_index)
+            if qubit.name != make_item_name(qubit.alias_from, qubit.alias_index):
+                # A qubit alias (map m r[n]) keeps its name; r[n] becomes r[2]
+                return NamedQubit(qubit.name, new_from, new_index)
             return new_from[new_index]
         else:
             # Rebuild the qubit even if its index is unchanged: it must refer
